@@ -395,9 +395,21 @@ template <class TSym> static std::basic_string<TSym> RawUnits(const std::vector<
 	return s;
 }
 
+// exactly sized heap copy of a string and a view on it (sanitizer build: the first unit behind the text is poisoned)
+template <class TSym> struct Exact
+{
+	explicit Exact(const std::basic_string<TSym>& src) : buf(new TSym[src.size() ? src.size() : 1]), view(buf.get(), src.size())
+	{
+		std::copy(src.begin(), src.end(), buf.get());
+	}
+	std::unique_ptr<TSym[]> buf;
+	std::basic_string_view<TSym> view;
+};
+
 template <class TSym> static void RunNum(Tally& t, const std::vector<uint32_t>& u)
 {
-	const auto s = FromUnits<TSym>(u);
+	const Exact<TSym> exact(FromUnits<TSym>(u));
+	const auto s = exact.view;
 	Call(t, [&] { (void)Convert::To<int8_t>(s); });    Call(t, [&] { (void)Convert::To<uint8_t>(s); });
 	Call(t, [&] { (void)Convert::To<int16_t>(s); });   Call(t, [&] { (void)Convert::To<uint16_t>(s); });
 	Call(t, [&] { (void)Convert::To<int32_t>(s); });   Call(t, [&] { (void)Convert::To<uint32_t>(s); });
@@ -409,7 +421,8 @@ template <class TSym> static void RunNum(Tally& t, const std::vector<uint32_t>& 
 template <class TSym> static void RunDt(Tally& t, const std::vector<uint32_t>& u)
 {
 	using namespace std::chrono;
-	const auto s = FromUnits<TSym>(u);
+	const Exact<TSym> exact(FromUnits<TSym>(u));
+	const auto s = exact.view;
 	Call(t, [&] { (void)Convert::To<time_point<system_clock, nanoseconds>>(s); });
 	Call(t, [&] { (void)Convert::To<time_point<system_clock, microseconds>>(s); });
 	Call(t, [&] { (void)Convert::To<time_point<system_clock, milliseconds>>(s); });
@@ -424,7 +437,8 @@ template <class TSym> static void RunDt(Tally& t, const std::vector<uint32_t>& u
 template <class TSym> static void RunDu(Tally& t, const std::vector<uint32_t>& u)
 {
 	using namespace std::chrono;
-	const auto s = FromUnits<TSym>(u);
+	const Exact<TSym> exact(FromUnits<TSym>(u));
+	const auto s = exact.view;
 	Call(t, [&] { (void)Convert::To<nanoseconds>(s); });  Call(t, [&] { (void)Convert::To<microseconds>(s); });
 	Call(t, [&] { (void)Convert::To<milliseconds>(s); }); Call(t, [&] { (void)Convert::To<seconds>(s); });
 	Call(t, [&] { (void)Convert::To<minutes>(s); });      Call(t, [&] { (void)Convert::To<hours>(s); });
@@ -434,8 +448,10 @@ template <class TSym> static void RunDu(Tally& t, const std::vector<uint32_t>& u
 	Call(t, [&] { (void)Convert::To<duration<int64_t, std::ratio<604800>>>(s); });
 }
 
-template <class TIn, class TOut> static void RunTranscode(Tally& t, const std::basic_string<TIn>& src, Utf::UtfEncodingErrorPolicy pol)
+template <class TIn, class TOut> static void RunTranscode(Tally& t, const std::basic_string<TIn>& srcString, Utf::UtfEncodingErrorPolicy pol)
 {
+	const Exact<TIn> exact(srcString);
+	const auto src = exact.view;
 	const TIn* b = src.data(); const TIn* e = src.data() + src.size();
 	Call(t, [&] { std::basic_string<TOut> out; (void)Utf::Transcode(b, e, out, pol); });
 	if constexpr (sizeof(TIn) == 1) { Call(t, [&] { std::basic_string<TOut> out; (void)Utf::Utf8::Decode(b, e, out, pol); }); }
@@ -594,7 +610,15 @@ static void ExecuteRun(const Input& in, const std::string& target, const std::st
 			// the caller's objects (target, stream holding a copy of the document) are created before the accounted region:
 			// only what LoadObject itself requests is counted
 			T value{};
-			if (medium == "mem") { rb::g_acc.armed = true; LoadObject<TheArchive>(value, in.doc, options); rb::g_acc.armed = false; }
+			if (medium == "mem") {
+				// exactly sized heap copy: in the sanitizer build the first byte behind the document is poisoned (a std::string
+				// would leave readable slack: small-string buffer, capacity, terminating NUL)
+				const size_t n = in.doc.size();
+				std::unique_ptr<char[]> exact(new char[n ? n : 1]);
+				std::memcpy(exact.get(), in.doc.data(), n);
+				const std::string_view view(exact.get(), n);
+				rb::g_acc.armed = true; LoadObject<TheArchive>(value, view, options); rb::g_acc.armed = false;
+			}
 			else if (medium == "sstream") {
 				std::istringstream s(in.doc, std::ios::in | std::ios::binary);
 				rb::g_acc.armed = true; LoadObject<TheArchive>(value, s, options); rb::g_acc.armed = false;
